@@ -211,6 +211,9 @@ def check_cell(fe, method, mode, extra, calls, checksum_mode, provide_size, err,
                 if op == 'CompleteMultipartUpload' and params.get('ChecksumType') != 'FULL_OBJECT':
                     out.append(V(f'{ctx}: CompleteMultipartUpload without ChecksumType=FULL_OBJECT', sym='full-checksum-derivation', op=op,
                                  arg=has_full[0], **mech0))
+                if op == 'PutObject' and 'ChecksumAlgorithm' not in extra and params.get('ChecksumAlgorithm') not in (None, algo):
+                    out.append(V(f'{ctx}: PutObject carries the user\'s {has_full[0]} but ChecksumAlgorithm={params.get("ChecksumAlgorithm")!r} '
+                                 f'was added: not the matching algorithm', sym='full-checksum-derivation', op=op, arg=has_full[0], **mech0))
                 if op == 'UploadPart' and params.get('ChecksumAlgorithm') != algo:
                     out.append(V(f'{ctx}: UploadPart ChecksumAlgorithm={params.get("ChecksumAlgorithm")!r}; expected {algo}',
                                  sym='full-checksum-derivation', op=op, arg=has_full[0], **mech0))
